@@ -1581,4 +1581,162 @@ theorem entry_spellings :
     (["UGRID", "Ugrid", "netcdf"].map (Entry.parse .toXarray) = [none, none, none]) ∧
     (["ugrid", "EXODUS", "scrip"].map (Entry.parse .encodeAs) = [none, none, none]) := by decide
 
+/-! ## 9. Exodus for every face size -/
+
+theorem elemType_total (h : exoTotalFrom3 = true) (k : Nat) (h3 : 3 ≤ k) : elemTypeKnown k = true := by
+  unfold exoTotalFrom3 at h
+  rw [Bool.and_eq_true] at h
+  by_cases hk : k < 17
+  · have := List.all_eq_true.mp h.1 k (List.mem_range.mpr hk)
+    have h3' : decide (k < 3) = false := by simp; omega
+    simpa [h3'] using this
+  · unfold elemTypeKnown
+    cases hg : Gen.Conv.EXODUS_GENERIC_FROM with
+    | none => rw [hg] at h; simp at h
+    | some g =>
+      rw [hg] at h
+      have hg17 : g ≤ 17 := by simpa using h.2
+      have : g ≤ k := by omega
+      simp [this]
+
+/-- **exodus_rt_perm, every face size** (repair `C07-exodus-element-type-any-size`): with an element
+    type for every polygon the size hypothesis of `exodus_rt_perm` is gone — for EVERY standard-form
+    table whose faces have at least three corners (9-gons, 10-gons, … included), the encoder does not
+    raise, the blocks are rectangular, and a reader of all blocks (this file's and C01's) gets the
+    faces back as a multiset. -/
+theorem exodus_rt_perm_total {P X} (htot : exoTotalFrom3 = true) (cfg : Cfg)
+    (h1 : cfg.exoFillTest = true) (h2 : cfg.exoStartAccum = true)
+    (radToXyz : P → X) (deg2rad : P → P) (stored : Option (List X)) (n w : Nat) (t : Table)
+    (nodes : List P) (hstd : StdForm n w t) (h3 : ∀ r ∈ t, 3 ≤ (faceOf r).length) :
+    ∃ out, encodeExodus cfg radToXyz deg2rad stored w t nodes = some out ∧
+      ((decodeExodusAll out.blocks).map faceOf).Perm (t.map faceOf) ∧
+      ((Readers.decodeExodus (out.blocks.map (·.connect))).map faceOf).Perm (t.map faceOf) ∧
+      (∀ b ∈ out.blocks, ∀ r ∈ b.connect, r.length = b.nodesPerEl) := by
+  obtain ⟨out, h, hp, hr⟩ := exodus_rt_perm cfg h1 h2 radToXyz deg2rad stored n w t nodes hstd
+    (fun r hr => elemType_total htot _ (h3 r hr))
+  exact ⟨out, h, hp, by rw [exodus_readers_agree]; exact hp, hr⟩
+
+/-- the single full-width block the tree's encoder writes, for every width `≥ 3` -/
+theorem exodus_single_block_total {P X} (htot : exoTotalFrom3 = true) (cfg : Cfg) (h1 : cfg.exoFillTest = false)
+    (radToXyz : P → X) (deg2rad : P → P) (stored : Option (List X)) (n w : Nat) (t : Table)
+    (nodes : List P) (hstd : StdForm n w t) (hne : t ≠ []) (hw : 3 ≤ w) :
+    ∃ out, encodeExodus cfg radToXyz deg2rad stored w t nodes = some out ∧
+      decodeExodusLast out.blocks = t ∧
+      (Readers.decodeExodus (out.blocks.map (·.connect))).map faceOf = t.map faceOf := by
+  obtain ⟨out, h, hd, _⟩ := exodus_rt_single_block cfg h1 radToXyz deg2rad stored n w t nodes hstd hne
+    (elemType_total htot w hw)
+  obtain ⟨out', h', hd'⟩ := exodus_single_block_via_c01 cfg h1 radToXyz deg2rad stored n w t nodes hstd hne
+    (elemType_total htot w hw)
+  rw [h] at h'; cases h'
+  exact ⟨out, h, hd, hd'⟩
+
+/-- non-vacuity (holds whichever tree the tables were regenerated from): the totality facts are
+    true, or the function has no rule beyond its table — and a table with a 9-gon is standard form -/
+example : exoTotalFrom3 = true ∨ Gen.Conv.EXODUS_GENERIC_FROM = none := by decide
+example : StdForm 9 9 [[0, 1, 2, 3, 4, 5, 6, 7, 8], [0, 1, 2, FILL, FILL, FILL, FILL, FILL, FILL]] ∧
+    (∀ r ∈ ([[0, 1, 2, 3, 4, 5, 6, 7, 8], [0, 1, 2, FILL, FILL, FILL, FILL, FILL, FILL]] : Table),
+      3 ≤ (faceOf r).length) := by decide
+
+/-! ## 10. xarray's `.encoding`: the export of a file-sourced grid can be written -/
+
+theorem encOf_map (g : String × List String → String × List String) (hg : ∀ p, (g p).1 = p.1)
+    (e : Encodings) (name : String) :
+    encOf (e.map g) name = ((e.find? (fun p => p.1 == name)).map (fun p => (g p).2)).getD [] := by
+  unfold encOf
+  rw [List.find?_map]
+  have : ((fun p : String × List String => p.1 == name) ∘ g) = (fun p => p.1 == name) := by
+    funext p; simp [Function.comp, hg p]
+  rw [this]
+  cases e.find? (fun p => p.1 == name) <;> rfl
+
+/-- the encoding keys of an exported variable are among those of the grid's variable; with the
+    repair, a variable carrying a `_FillValue` attribute keeps none of the stale keys -/
+theorem exportEncoding_spec (cfg : Cfg) (vs : List Var) (e : Encodings) (name k : String)
+    (hk : k ∈ encOf (exportEncoding cfg vs e) name) :
+    k ∈ encOf e name ∧ (cfg.dropStaleEncoding = true → hasFillAttr vs name = true → k ∉ staleKeys) := by
+  unfold exportEncoding at hk
+  cases hc : cfg.dropStaleEncoding with
+  | false => rw [hc] at hk; exact ⟨by simpa using hk, fun h => by cases h⟩
+  | true =>
+    rw [hc] at hk
+    simp only [if_true] at hk
+    rw [encOf_map _ (fun p => by split <;> rfl)] at hk
+    unfold encOf
+    cases hf : e.find? (fun p => p.1 == name) with
+    | none => rw [hf] at hk; simp at hk
+    | some p =>
+      rw [hf] at hk
+      have hpn : p.1 = name := by
+        have := List.find?_some hf; simpa using this
+      simp only [Option.map_some, Option.getD_some] at hk ⊢
+      split at hk
+      · rename_i hfill
+        have := List.mem_filter.mp hk
+        refine ⟨this.1, fun _ _ => ?_⟩
+        intro hst
+        have h2 := this.2
+        simp at h2
+        exact h2 hst
+      · rename_i hnofill
+        refine ⟨hk, fun _ hfa => ?_⟩
+        rw [hpn] at hnofill
+        exact absurd hfa hnofill
+
+/-- the only attribute/encoding clashes a grid's dataset has are the fill declarations of variables
+    that carry a `_FillValue` attribute (what `xr.open_dataset` + the readers' standardisation leave:
+    the file's `_FillValue`/`missing_value` in `.encoding`, the standard one in `.attrs`) -/
+def OnlyFillClashes (vs : List Var) (e : Encodings) : Prop :=
+  ∀ v ∈ vs, ∀ k ∈ encOf e v.name, k ∈ cfEncodingKeys → (v.attrs.any (fun a => a.1 == k)) = true →
+    k ∈ staleKeys ∧ (v.attrs.any (fun a => a.1 == "_FillValue")) = true
+
+instance (vs e) : Decidable (OnlyFillClashes vs e) := by unfold OnlyFillClashes; infer_instance
+
+/-- **export_writable** (repairs `C07-ugrid-export-attrs` and `C07-ugrid-export-stale-encoding`, the
+    latter committed as d4dd3713): for EVERY grid dataset — any variables, any attributes, any
+    `.encoding` left by the file it was read from — whose only attribute/encoding clashes are fill
+    declarations, the UGRID export can be written by `to_netcdf`: every attribute is a netCDF
+    attribute and no exported variable has a CF encoding key that is also one of its attributes. -/
+theorem export_writable {P} (cfg : Cfg) (hs : cfg.stripAttrs = true) (hd : cfg.dropStaleEncoding = true)
+    (tmpl : Topo) (d : Ds P)
+    (hclash : OnlyFillClashes ((exportVars cfg d.vars).map Var.strip) d.encoding) :
+    (encodeUgrid cfg tmpl d).1.writable = true := by
+  unfold UgridOut.writable
+  rw [Bool.and_eq_true]
+  refine ⟨ugrid_serialisable cfg hs tmpl d, ?_⟩
+  unfold encodeUgrid
+  simp only [hs, if_true]
+  rw [List.all_eq_true]
+  intro v hv
+  simp only [Bool.not_eq_eq_eq_not, Bool.not_true]
+  unfold encodingConflict
+  rw [List.any_eq_false]
+  intro k hk hcon
+  rw [Bool.and_eq_true] at hcon
+  obtain ⟨hk1, hk2⟩ := exportEncoding_spec cfg _ d.encoding v.name k hk
+  obtain ⟨hst, hfill⟩ := hclash v hv k hk1 (List.contains_iff_mem.mp hcon.1) hcon.2
+  have hfa : hasFillAttr ((exportVars cfg d.vars).map Var.strip) v.name = true := by
+    unfold hasFillAttr
+    rw [List.any_eq_true]
+    exact ⟨v, hv, by simp [hfill]⟩
+  exact hk2 hd hfa hst
+
+/-- a grid read from a UGRID file: the reader put the standard `_FillValue` into the attributes of
+    `face_node_connectivity`, the file's one is still in its `.encoding` -/
+def exFileSourced : Ds Nat :=
+  { table := [[0, 1, 2]], nodes := [0, 1, 2], lonlat := true, extras := []
+    encoding := [("face_node_connectivity", ["_FillValue", "dtype", "zlib", "source"]),
+                 ("node_lon", ["dtype", "source"])] }
+
+/-- **as is** (before d4dd3713) the export of such a grid is refused by `to_netcdf`; repaired it is
+    written, and keeps the encoding keys that do no harm -/
+theorem asis_stale_encoding_not_writable :
+    (encodeUgrid { Cfg.repaired with dropStaleEncoding := false } Gen.Conv.BASE_GRID_TOPOLOGY_ATTRS exFileSourced).1.writable = false ∧
+    (encodeUgrid Cfg.repaired Gen.Conv.BASE_GRID_TOPOLOGY_ATTRS exFileSourced).1.writable = true ∧
+    encOf (encodeUgrid Cfg.repaired Gen.Conv.BASE_GRID_TOPOLOGY_ATTRS exFileSourced).1.encoding "face_node_connectivity"
+      = ["zlib", "source"] := by decide
+
+/-- non-vacuity of `export_writable`'s hypothesis -/
+example : OnlyFillClashes ((exportVars Cfg.repaired exFileSourced.vars).map Var.strip) exFileSourced.encoding := by
+  decide
+
 end UxVerif.C07
